@@ -272,6 +272,10 @@ var c11Progs = []c11Prog{
 	{Name: "table-ops-ipairs", Src: `local n=0 while n < LIMIT do n=n+1 local t={} for i=1,3 do t[#t+1]=i*n end local s=0 for _,v in ipairs(t) do s=s+v end for k,v in pairs(t) do s=s+k end emit(s) end`},
 	{Name: "channel-nonblocking", Src: `local ch=channel.make(1) local n=0 while n < LIMIT do n=n+1 ch:send(n) local ok,v=ch:receive() emit(ok,v) local i,rv=channel.select({"default"}) emit(i) end`},
 	{Name: "channel-select-handler", Src: `local ch=channel.make(1) local n=0 while n < LIMIT do n=n+1 ch:send(n) channel.select({"|<-",ch,function(ok,v) local j=0 while j < 3 do j=j+1 emit(v,j) end end}) end`},
+	{Name: "channel-select-send-handler", Src: `local ch=channel.make(1) local n=0 while n < LIMIT do n=n+1 local i,v,ok=channel.select({"<-|",ch,n,function(...) emit("sent",select("#",...),...) end}) emit(i,v,ok) emit(ch:receive()) end`},
+	{Name: "channel-select-mixed-handlers", Src: `local full,ready,empty=channel.make(1),channel.make(1),channel.make(1) full:send(0) local n=0 while n < LIMIT do n=n+1 ready:send(n) local i,v,ok=channel.select({"<-|",full,1,function(...) emit("h1",select("#",...),...) end},{"|<-",ready,function(...) emit("h2",select("#",...),...) end},{"|<-",empty,function(...) emit("h3",select("#",...),...) end}) emit(i,v,ok) i,v,ok=channel.select({"|<-",empty,function(...) emit("h4",select("#",...),...) end},{"<-|",ready,n+100,function(...) emit("h5",select("#",...),...) end},{"<-|",full,2,function(...) emit("h6",select("#",...),...) end}) emit(i,v,ok) emit(ready:receive()) end`},
+	{Name: "channel-select-default-handler", Src: `local empty,full=channel.make(1),channel.make(1) full:send(0) local n=0 while n < LIMIT do n=n+1 local i,v,ok=channel.select({"|<-",empty,function(...) emit("h1",select("#",...),...) end},{"<-|",full,1,function(...) emit("h2",select("#",...),...) end},{"default",function(...) emit("h3",select("#",...),...) end}) emit(i,v,ok) i,v,ok=channel.select({"default",function(...) emit("h4",select("#",...),...) end},{"<-|",full,1,function(...) emit("h5",select("#",...),...) end}) emit(i,v,ok) end`},
+	{Name: "channel-select-closed", Src: `local n=0 while n < LIMIT do n=n+1 local c=channel.make(1) c:send(n) c:close() local i,v,ok=channel.select({"|<-",c,function(...) emit("h1",select("#",...),...) end}) emit(i,v,ok) i,v,ok=channel.select({"|<-",c,function(...) emit("h2",select("#",...),...) end}) emit(i,v,ok) end`},
 	{Name: "string-methods", Src: `local n=0 while n < LIMIT do n=n+1 local s=("x"):rep(3)..tostring(n) emit(#s, s:sub(1,2), s:find("x",1,true)) end`},
 	{Name: "global-counter-loop", Src: `g=0 local i=0 while i < LIMIT do i=i+1 g=g+1 end emit(g)`},
 	{Name: "global-counter-after-pcall", Src: `g=0 local n=0 while n < LIMIT do n=n+1 pcall(function() local j=0 while j < LIMIT do j=j+1 g=g+1 end end) g=g+1000 end emit(g)`},
